@@ -28,6 +28,7 @@ import Hdl21Model.Lemmas.PortRefs
 import Hdl21Model.Lemmas.ConnTypes
 import Hdl21Model.Lemmas.Orphanage
 import Hdl21Model.Lemmas.ModulePipe
+import Hdl21Model.Props.C06
 namespace Hdl21.Props.C02
 open Hdl21 Hdl21.Runner
 
@@ -261,5 +262,45 @@ example :
     (pipeline 40 ctx (mk [("p", .sig "u" 2), ("n", .slice (.sig "t" 3) (.int 2))])).toOption.isSome = false := by
   decide +kernel
 end Pipeline
+
+
+/-! ## … and for every module of an F1 design -/
+section Hierarchy
+open Hdl21.Pkg Hdl21.RoundTrip Hdl21.ExportWF Hdl21.ModulePipe Hdl21.Props.C06
+
+/-- **A package comes back only for a design that is well-formed in every module**: if `pipelineDesign` (children first, every
+    module through the composed pass list and the exporter) returns, then every instance of every module is well-formed against
+    what its target *was exported as* — a module exported before it, a declared external module, a primitive.  One ill-formed
+    instance anywhere in the hierarchy — `module_faults_rejected` lists the classes — and no package is returned. -/
+theorem design_accepts_only_wellformed (fuel : Nat) (exts : List PExt) (hext : ∀ e ∈ exts, (e.ports.map (·.1)).Nodup) :
+    ∀ (hs : List HModule) (acc mods : List PModule), (∀ h ∈ hs, ModOK₀ h) → (∀ m ∈ acc, (m.ports.map (·.1)).Nodup) →
+      pipelineDesign fuel exts hs acc = .ok mods →
+      ∀ h ∈ hs, ∃ earlier, earlier <+: mods ∧ ∀ i ∈ h.instances, InstWF (targetPorts ⟨[], exts⟩ earlier) (sigList h) i
+  | [], acc, mods, _, _, _ => by intro h hh; cases hh
+  | h :: rest, acc, mods, hm, hacc, hp => by
+    unfold pipelineDesign at hp
+    cases h1 : pipeline fuel (targetPorts ⟨[], exts⟩ acc) h with
+    | error x => simp [h1] at hp
+    | ok p =>
+      simp only [h1] at hp
+      obtain ⟨m1, m2, m3, m4, m5⟩ := hm h (List.mem_cons_self ..)
+      have hmod : ModOK (targetPorts ⟨[], exts⟩ acc) h := ⟨m1, m2, m3, m4, m5, ctx_ports_distinct exts acc hacc hext⟩
+      have hpn : (p.ports.map (·.1)).Nodup := by
+        rw [pipeline_ports fuel _ h p h1]
+        rw [List.map_append] at m1
+        exact (List.nodup_append.mp m1).2.1
+      have hacc' : ∀ m ∈ acc ++ [p], (m.ports.map (·.1)).Nodup := fun m hmem => by
+        rcases List.mem_append.mp hmem with hm' | hm'
+        · exact hacc m hm'
+        · simp at hm'; subst hm'; exact hpn
+      have hrest := design_accepts_only_wellformed fuel exts hext rest (acc ++ [p]) mods
+        (fun x hx => hm x (List.mem_cons_of_mem _ hx)) hacc' hp
+      obtain ⟨new, hnew, _⟩ := design_pipeline_wf fuel exts hext rest (acc ++ [p]) mods
+        (fun x hx => hm x (List.mem_cons_of_mem _ hx)) hacc' hp
+      intro x hx
+      rcases List.mem_cons.mp hx with rfl | hx
+      · exact ⟨acc, ⟨[p] ++ new, by rw [hnew]; simp⟩, module_accepts_only_wellformed fuel _ x p hmod h1⟩
+      · exact hrest x hx
+end Hierarchy
 
 end Hdl21.Props.C02
